@@ -1,15 +1,15 @@
 TB = "trusted base: harness reference models in /verif/harness/ref (no jd imports), encoding/json, the Go toolchain; inputs limited to the generators' alphabets and depths stated in the evidence file"
 CLAIMS["C01"] = (
  "runtime monitor with reference model: in-memory Diff->Patch round trip judged by jd's Equals and an independent canonical form, on seeded random + exhaustive small workloads",
- "Held on every executed (a, b, option set) case: random structured pairs per option set, every array pair over a 3-letter alphabet up to length 4 (quick) / 5 (thorough) at four nesting positions, the FuzzJd corpus and void sides; a run is a finite sample of an unbounded space, with exhaustive strata marked as such.",
+ "Held on every executed (a, b, option set) case: random structured pairs per option set, every array pair over a 3-letter alphabet up to length 4 (quick) / 5 (thorough) at four nesting positions, the FuzzJd corpus and void sides; operands also as in-memory results of Patch and the diff applied to the very operand it was computed from; strings of 1-140 KB differing in one middle byte and multiplicities around 256; a run is a finite sample of an unbounded space, with exhaustive strata marked as such.",
  TB, "DESIGN.md 5.1")
 CLAIMS["C04"] = (
  "runtime monitor with reference model: Equals (both directions + reflexivity) judged by type-tagged canonical forms; hash-injectivity invariant over observed digests via the verif hook VerifHashCode",
- "Held on every executed pair: constructed equal / reordered / duplicated / near-miss / mutated / independent pairs under list, SET, MULTISET, SetKeys and four Precision values; every ordered pair of 40 type-confusable atoms at 4 wrappings (exhaustive); number/8-byte-string alias pairs (known finding F8); 64-bit digest table over all sub-values with public-API confirmation of suspects.",
+ "Held on every executed pair: constructed equal / reordered / duplicated / near-miss / mutated / independent pairs under list, SET, MULTISET, SetKeys and four Precision values; every ordered pair of 40 type-confusable atoms at 4 wrappings (exhaustive); number/8-byte-string alias pairs (known finding F8) ; long strings differing in one middle byte and bags whose counts differ by multiples of 256 (exhaustive pairs); operands also as in-memory results of Patch; 64-bit digest table over all sub-values with public-API confirmation of suspects.",
  TB + "; real FNV collisions between unrelated values are unreachable by any run", "DESIGN.md 5.4")
 CLAIMS["C05"] = (
  "runtime monitor with reference model: len(Diff)==0, Equals and an independent oracle compared pairwise; exit status of the three real binaries observed as processes",
- "Held on every executed (a, b, option set) incl. MERGE combinations and Precision at root / under keys / in arrays, the confusable atoms exhaustively, and on sampled CLI runs of v2/jd, jd and jd -v2=false (exit 0 iff oracle-equal).",
+ "Held on every executed (a, b, option set) incl. MERGE combinations and Precision at root / under keys / in arrays, the confusable atoms exhaustively,, the bulky atoms of C04, a document against a second parse of itself under SetKeys with shared or missing keys, and on sampled CLI runs of v2/jd, jd and jd -v2=false (exit 0 iff oracle-equal).",
  TB, "DESIGN.md 5.5")
 CLAIMS["C06"] = (
  "runtime monitor with reference model: edit counts of list diffs judged against a textbook LCS DP; context lines judged by stepwise reference interpretation of the hunks",
@@ -25,15 +25,15 @@ CLAIMS["C03"] = (
  TB, "DESIGN.md 5.3")
 CLAIMS["C08"] = (
  "runtime monitor with reference model: every Patch event of set / multiset / keyed-member diffs on permuted and hostile targets compared with an independent set / bag / keyed-member interpreter",
- "Held on every executed (diff, target) event under SET, MULTISET and three SetKeys configurations, incl. non-array targets, absent members, insufficient multiplicity, changed non-key fields; the swallowed nested error inside keyed members is the open known finding F4 (classifier + deviation model).",
+ "Held on every executed (diff, target) event under SET, MULTISET and three SetKeys configurations, incl. non-array targets, absent members, insufficient multiplicity, changed non-key fields, members lacking one of two keys, constructed {} / [] hunks no single Diff emits, members that are 1-70 KB strings, multiplicities up to 300; the swallowed nested error inside keyed members is the open known finding F4 (classifier + deviation model).",
  TB, "DESIGN.md 5.8")
 CLAIMS["C02"] = (
  "runtime monitor: render / re-read / re-render identity, field-by-field hunk identity and identical patch effect on a document panel, over diffs produced by Diff and exhaustively constructed hunk sequences; reader automaton transitions observed through the verif hook VerifReadTrace",
- "Held on every executed diff: ~54k diffs from Diff under 9 option sets with hostile string payloads, all 418 well-formed single hunk shapes, a third (quick) / all (thorough) ordered pairs of them, all pairs and 1/16 (quick) / all (thorough) triples of a reduced shape set, plus real-binary print-then-patch round trips; all 25 reader transitions reachable from well-formed text were driven.",
+ "Held on every executed diff: ~54k diffs from Diff under 9 option sets with hostile string payloads, all 418 well-formed single hunk shapes, a third (quick) / all (thorough) ordered pairs of them, all pairs and 1/16 (quick) / all (thorough) triples of a reduced shape set, plus real-binary print-then-patch round trips, and the memory Render allocates for long single-string hunks (finding F33, fixed); all 25 reader transitions reachable from well-formed text were driven.",
  TB, "DESIGN.md 5.2")
 CLAIMS["C09"] = (
- "runtime monitor with reference model: RenderPatch output parsed and evaluated by an independent RFC 6901/6902 evaluator on a and on perturbed targets where the native diff applies; refusal rule checked",
- "Held on every executed list-mode pair (random incl. pointer-hostile and number-like keys, all array pairs over {1,2,3} up to length 4 at four nestings, the FuzzJd corpus): the rendered patch is well formed, gives b on a, agrees with the native diff on every target where that applies, and is refused exactly for inexpressible keys.",
+ "runtime monitor with reference model: RenderPatch output parsed and evaluated by an independent RFC 6901/6902 evaluator on a and on perturbed targets where the native diff applies; refusal rule checked, also through both binaries (`-f patch`: status 1 with the rendering or status 2 with empty stdout)",
+ "Held on every executed list-mode pair (random incl. pointer-hostile and number-like keys, all array pairs over {1,2,3} up to length 4 at four nestings, the FuzzJd corpus): the rendered patch is well formed, gives b on a, agrees with the native diff on every target where that applies, arrays of 10-270 elements edited at multi-digit indices, and is refused exactly for inexpressible keys.",
  TB + "; RFC 6902 root-replacement reading of DESIGN 5.9", "DESIGN.md 5.9")
 CLAIMS["C10"] = (
  "runtime monitor with reference model: ReadPatchString + Patch compared with an independent RFC 6902 evaluation of the same patch text on the same document, over jd's own output and six subset-preserving variations",
